@@ -13,3 +13,6 @@ func (p *SingleFlightProvider) VerifInner() Provider { return p.provider }
 
 // VerifInner exposes the provider wrapped by the group cache (verification harness only, build tag verif).
 func (p *GroupCache) VerifInner() Provider { return p.provider }
+
+// VerifCache exposes the group cache's store (verification harness only, build tag verif).
+func (p *GroupCache) VerifCache() Cache { return p.cache }
